@@ -875,6 +875,12 @@ func (e *Env) call(x SCall) SVal {
 			return v
 		}
 		efail("cur(%s): no such local", id.Name)
+	case "deref":
+		// deref(p): the value behind a pointer to a scalar (a parameter `p *int`): cell p of the heap P:<type>
+		argn(1)
+		pv := e.elab(x.Args[0])
+		h, et := derefHeap(e.p, pv)
+		return SVal{T: Select(e.cur.H(e.p, h), pv.T), Typ: et}
 	case "gf", "gfa":
 		// ghost fields: gf(name, x) is an int-valued ghost field of object x, gfa(name, x, k) the k-th cell of
 		// an int-array-valued one. They exist only in contracts (model state of opaque library objects such
@@ -1233,4 +1239,18 @@ func (e *Env) tryElab(x SExpr) (v SVal, ok bool) {
 		}
 	}()
 	return e.elab(x), true
+}
+
+// derefHeap: the heap array that holds the cells of pointers to the scalar type pv points to.
+func derefHeap(p *Program, pv SVal) (string, types.Type) {
+	if pv.Typ != nil {
+		if pt, ok := pv.Typ.Underlying().(*types.Pointer); ok {
+			if es := sortOf(pt.Elem()); es != nil {
+				h := "P:" + typeKey(pt.Elem())
+				p.registerHeap(h, ArraySort(SInt, es))
+				return h, pt.Elem()
+			}
+		}
+	}
+	panic(elabErr{"deref(p): p must be a pointer to a scalar"})
 }
